@@ -4,8 +4,10 @@ open Conv
 
 let show = function XAlloc -> "A" | XFree -> "F" | XCons i -> "C" ^ string_of_int (int_of_nat i) | XDtor i -> "D" ^ string_of_int (int_of_nat i) | XThrow -> "T"
 
+let showj = function JxAlloc -> "A" | JxFree -> "F" | JxC i -> "C" ^ string_of_int (int_of_nat i) | JxD i -> "D" ^ string_of_int (int_of_nat i) | JxT -> "T"
+
 let run () =
-  let total = ref 0 and bad = ref 0 and throws = ref 0 in
+  let total = ref 0 and bad = ref 0 and throws = ref 0 and joint = ref 0 in
   let diverge msg line = incr bad; if !bad <= 12 then Printf.printf "DIVERGE %s :: %s\n" msg line in
   (try
      while true do
@@ -33,7 +35,25 @@ let run () =
                 | ["leaks"; v] -> if v <> "0" then diverge "leak reported" line
                 | _ -> ()) (split_ws (String.concat " " (List.tl (String.split_on_char '|' rest))))
           | _ -> ())
+       | Some i when String.length line > 2 && line.[0] = 'j' && line.[1] = ' ' ->
+         (* joint helpers: j <form> <cap> <nc> <na> <nb> <throw_at> <post> ... = ... ev=<events> ... against JointExc.jx_case *)
+         let lhs = split_ws (String.sub line 0 i) in
+         let rest = String.sub line (i + 1) (String.length line - i - 1) in
+         (match lhs with
+          | "j" :: form :: _ :: _ :: na :: _ :: t :: post :: _ when form <> "ilist" ->
+            let ev = List.fold_left (fun acc tok -> if String.length tok > 3 && String.sub tok 0 3 = "ev=" then Some (String.sub tok 3 (String.length tok - 3)) else acc) None (split_ws rest) in
+            (match ev with
+             | Some e ->
+               incr joint;
+               let n = int_of_string na and t = int_of_string t in
+               let fail = if t >= 0 then Some (nat_of_int t) else None in
+               let p = if post = "clone" || post = "move" then PCopy else PNone in
+               let model = String.concat "," (List.map showj (jx_case (nat_of_int n) fail p)) in
+               if t >= 0 && t < (if p = PCopy then 2 * n else n) then incr throws;
+               if model <> e then diverge (Printf.sprintf "model events [%s]" model) line
+             | None -> ())
+          | _ -> ())
        | _ -> ()
      done
    with End_of_file -> ());
-  Printf.printf "SUMMARY total=%d diverged=%d throwing_cases=%d\n" !total !bad !throws
+  Printf.printf "SUMMARY total=%d diverged=%d throwing_cases=%d joint_event_lists=%d\n" !total !bad !throws !joint
